@@ -208,8 +208,11 @@ Definition same_loc (a b : access) : bool :=
 
 Definition conflicting (a b : access) : bool := same_loc a b && (is_write a || is_write b).
 
+(* a captured local exists once per invocation of its function: only the function body and
+   the goroutines it starts (different a_func) can touch the same instance *)
 Definition concurrent_roles (a b : access) : bool :=
   negb (a_fresh a) && negb (a_fresh b) &&
+  (if a_local a then negb (String.eqb (a_func a) (a_func b)) else true) &&
   existsb (fun r1 => existsb (overlap r1) (roles_of (a_func b))) (roles_of (a_func a)).
 
 (* the standard lockset condition: both hold the same mutex, and not both in shared mode *)
@@ -227,9 +230,14 @@ Definition confined_types : list string := ["rdb.Context"].
 Definition listed_exception (a b : access) : bool :=
   mem_str (a_owner a) confined_types && mem_str (a_owner b) confined_types.
 
+(* [if] rather than [||]: evaluation by vm_compute is call-by-value *)
 Definition pair_ok (a b : access) : bool :=
-  negb (conflicting a b) || negb (concurrent_roles a b) ||
-  common_lock a b || ordered_by_channel a b || listed_exception a b.
+  if conflicting a b then
+    if concurrent_roles a b then
+      if common_lock a b then true else
+      if ordered_by_channel a b then true else listed_exception a b
+    else true
+  else true.
 
 (* the known unsynchronised pairs of the unchanged tree (known_findings.json):
    F11  IteratorPool.enabled: read in get() without pool.l, written by disable()/enable()
@@ -250,11 +258,11 @@ Definition finding_class (a b : access) : bool := same_loc a b && (fc_dir a b ||
 
 (* checkers over a table *)
 Definition table_ok (t : list access) : bool :=
-  forallb (fun a => forallb (fun b => finding_class a b || pair_ok a b) t) t.
+  forallb (fun a => forallb (fun b => if pair_ok a b then true else finding_class a b) t) t.
 Definition table_ok_strict (t : list access) : bool :=
   forallb (fun a => forallb (fun b => pair_ok a b) t) t.
 Definition bad_pairs (t : list access) : list (access * access) :=
-  filter (fun p => negb (finding_class (fst p) (snd p) || pair_ok (fst p) (snd p))) (list_prod t t).
+  filter (fun p => if pair_ok (fst p) (snd p) then false else negb (finding_class (fst p) (snd p))) (list_prod t t).
 Definition flagged_pairs (t : list access) : list (access * access) :=
   filter (fun p => negb (pair_ok (fst p) (snd p))) (list_prod t t).
 
